@@ -495,6 +495,7 @@ pub fn instantiate_body(r: &mut Rng, rule: &str) -> String {
     out
 }
 
+#[derive(Clone)]
 pub struct Req {
     pub url: String,
     pub source: String,
@@ -536,10 +537,11 @@ pub fn gen_request(r: &mut Rng, rules: &[String]) -> Req {
         if !rules.is_empty() && r.chance(1, 2) {
             let rule = r.pick(rules);
             let t = rule.trim_start_matches("@@");
-            if t.starts_with("||") || t.starts_with("|http") || t.starts_with("|ws") {
+            if t.starts_with("||") || ((t.starts_with("|http") || t.starts_with("|ws")) && r.chance(1, 2)) {
                 path.push_str(r.ps(TOK));
                 continue;
             }
+            // (a start-anchored body embedded in the middle of the URL must not match)
             let body = instantiate_body(r, rule);
             if r.chance(1, 2) {
                 path.push_str(r.ps(&["lo", "x", "q9"]));
@@ -655,8 +657,11 @@ pub fn gen_cluster(r: &mut Rng, p: &Profile) -> Vec<String> {
         if exception {
             s.push_str("@@");
         }
-        let shape = r.below(12);
+        let shape = r.below(15);
         match shape {
+            12 => s.push_str(&format!("/{}*{}|", tok, r.ps(&["a", "b", "x1"]))),
+            13 => s.push_str(&format!("|https://ads.net/{}^{}", tok, r.ps(&["", "a", "b"]))),
+            14 => s.push_str(&format!("|https://*/{}/{}", tok, r.ps(&["a", "b", "c"]))),
             0 => s.push_str(&format!("/{}/{}", tok, r.ps(&["a", "b", "c", "d", "1", "2"]))),
             1 => s.push_str(&format!("/{}-{}.", tok, r.ps(&["a", "b", "x"]))),
             2 => s.push_str(&format!("/{}*{}", tok, r.ps(&["a=", "b/", "x1"]))),
